@@ -16,6 +16,7 @@ import Pastel.Props.C05
 import Pastel.Model.SetCmd
 import Pastel.Lemmas.LightMono
 import Pastel.Lemmas.Turns
+import Pastel.Lemmas.Hexcone
 
 namespace Pastel.C06
 open Pastel Sc ScOrd Pastel.C05
@@ -185,6 +186,46 @@ theorem complement_involutive (c : Color ℝ) (hc : Valid c) :
     rw [l2]; exact l1
   · show (rotateHue (complementary c) 180.0).alpha = c.alpha
     rw [a2]; exact a1
+
+
+
+/-! ### `set`: RGB channels and the other spaces -/
+
+/-- The byte `set red|green|blue v` stores: `v` clamped to `[0, 255]`, then Rust's `as u8`. -/
+def setChannel {β : Type} [ScT β] (v : β) : UInt8 := Sc.toU8 (clamp 0 255 v)
+
+theorem setChannel_real (v : ℝ) : setChannel v = Sc.toU8 (max (min 255 v) 0) := by
+  unfold setChannel clamp; sc_norm; push_cast; rfl
+
+/-- **`set red|green|blue v`** replaces exactly that 8-bit channel by `v` clamped to 0–255 (and cast
+as Rust's `as u8` does) and leaves the two other bytes unchanged — exact arithmetic, every colour. -/
+theorem set_rgb_channels (v : ℝ) (c : Color ℝ) :
+    ((toRgba8 (setProp .red v c)).r = setChannel v ∧ (toRgba8 (setProp .red v c)).g = (toRgba8 c).g ∧
+      (toRgba8 (setProp .red v c)).b = (toRgba8 c).b) ∧
+    ((toRgba8 (setProp .green v c)).r = (toRgba8 c).r ∧ (toRgba8 (setProp .green v c)).g = setChannel v ∧
+      (toRgba8 (setProp .green v c)).b = (toRgba8 c).b) ∧
+    ((toRgba8 (setProp .blue v c)).r = (toRgba8 c).r ∧ (toRgba8 (setProp .blue v c)).g = (toRgba8 c).g ∧
+      (toRgba8 (setProp .blue v c)).b = setChannel v) := by
+  have e1 : setProp .red v c = fromRgba8 (setChannel v) (toRgba8 c).g (toRgba8 c).b (toRgba8 c).alpha := rfl
+  have e2 : setProp .green v c = fromRgba8 (toRgba8 c).r (setChannel v) (toRgba8 c).b (toRgba8 c).alpha := rfl
+  have e3 : setProp .blue v c = fromRgba8 (toRgba8 c).r (toRgba8 c).g (setChannel v) (toRgba8 c).alpha := rfl
+  rw [e1, e2, e3]
+  exact ⟨hsl_roundtrip_real _ _ _ _, hsl_roundtrip_real _ _ _ _, hsl_roundtrip_real _ _ _ _⟩
+
+/-- Setting a coordinate of a space is "convert, replace one coordinate, construct" (definitional,
+all fifteen properties; here the non-RGB ones). -/
+theorem set_space_def {β : Type} [ScT β] (v : β) (c : Color β) :
+    setProp .lightness v c = fromLab v (toLab c).y (toLab c).z (toLab c).alpha ∧
+    setProp .labA v c = fromLab (toLab c).x v (toLab c).z (toLab c).alpha ∧
+    setProp .labB v c = fromLab (toLab c).x (toLab c).y v (toLab c).alpha ∧
+    setProp .hue v c = fromLch (toLch c).x (toLch c).y v (toLch c).alpha ∧
+    setProp .chroma v c = fromLch (toLch c).x v (toLch c).z (toLch c).alpha ∧
+    setProp .oklabL v c = fromOklab v (toOklab c).y (toOklab c).z (toOklab c).alpha ∧
+    setProp .oklabA v c = fromOklab (toOklab c).x v (toOklab c).z (toOklab c).alpha ∧
+    setProp .oklabB v c = fromOklab (toOklab c).x (toOklab c).y v (toOklab c).alpha ∧
+    setProp .hslHue v c = fromHsla v (toHsla c).y (toHsla c).z (toHsla c).alpha ∧
+    setProp .alpha v c = fromHsla (toHsla c).x (toHsla c).y (toHsla c).z v :=
+  ⟨rfl, rfl, rfl, rfl, rfl, rfl, rfl, rfl, rfl, rfl⟩
 
 
 end Pastel.C06
